@@ -259,6 +259,13 @@ def run(report):
             ["alpha::rx"], ["alphx::ra"], ["--list", "alphx"], ["--show", "alpha::rx"], ["--dry-run", "buils"], ["--evaluate", "CLEAN"], ["--evaluate", "NORMAl"]]
     for argv in NEAR:
         cases.append(("near-miss", near, argv, 2 * reps))
+    # settings whose use would bring in something random (a temporary directory) or absent (an interpreter, a shell, a
+    # working directory): a dry run and the listings must not depend on them
+    odd = {"justfile": 'set tempdir := "no/such/dir"\nset script-interpreter := ["no-such-interpreter", "-x"]\nset unstable\n\ns:\n  #!/no/such/interpreter\n  echo s\n\n'
+                       '[script]\nt:\n  echo t\n\n[working-directory("no/such/wd")]\nw:\n  echo w\n\n[script("also-missing")]\nu:\n  echo u\n'}
+    for argv in (["--dry-run", "s"], ["--dry-run", "t"], ["--dry-run", "u"], ["--dry-run", "w"], ["--dry-run", "s", "t", "u"], ["--list"], ["--dump"], ["--show", "t"],
+                 ["--shell", "/no/such/shell", "--dry-run", "w"], ["--tempdir", "/no/such/tmp", "--dry-run", "s"]):
+        cases.append(("odd-settings", odd, argv, reps))
     results = C.pmap(run_case, cases)
     stats = {"programs": len(progs), "commands": len(COMMANDS), "runs": sum(c[3] for c in cases), "repetitions": reps,
              "scan_files_with_hash_collections": len(found), "scan_differences": len(scan_diff)}
@@ -355,7 +362,7 @@ def run(report):
     report.coverage.update({
         "evaluations": len(cases) * reps + ntab,
         "distinct_nontrivial": len(distinct),
-        "rule": "justfiles with >=3 members in every collection (recipes, aliases, variables, settings, 4 unexports with per-variant names, recipe and module groups, modules, attributes, parameters) + justfiles with two unstable features / compile errors x %d non-executing command lines (incl. usage and unknown-recipe errors) x %d fresh processes each (hash seeds differ per process); plus random justfiles whose recipes, variables, unexports, aliases and modules (names chosen to separate byte order from other orders) are written in random order: every table of the dump, --summary and --variables against name order and against Just.Determinism.build; plus a scan of every HashMap/HashSet in non-test source against a committed classification; plus 22 command lines that name something equally close to several recipes, aliases, variables, constants or modules (suggestions), 16 runs each; distinct = distinct (program, command)" % (len(COMMANDS), reps),
+        "rule": "justfiles with >=3 members in every collection (recipes, aliases, variables, settings, 4 unexports with per-variant names, recipe and module groups, modules, attributes, parameters) + justfiles with two unstable features / compile errors x %d non-executing command lines (incl. usage and unknown-recipe errors) x %d fresh processes each (hash seeds differ per process); plus random justfiles whose recipes, variables, unexports, aliases and modules (names chosen to separate byte order from other orders) are written in random order: every table of the dump, --summary and --variables against name order and against Just.Determinism.build; plus a scan of every HashMap/HashSet in non-test source against a committed classification; plus 22 command lines that name something equally close to several recipes, aliases, variables, constants or modules (suggestions), 16 runs each; plus dry runs and listings of script recipes under an unusable tempdir, interpreter, shell and working directory; distinct = distinct (program, command)" % (len(COMMANDS), reps),
         "samples": samples,
         "traces_validated_against_impl": len(cases),
         "stats": stats,
